@@ -86,9 +86,25 @@ def main():
         if msg.get('cmd') == 'quit':
             break
         items = msg['items']
-        answers = [evaluate(items[i]) for i in msg['order']]
-        sys.stdout.write(json.dumps({'answers': answers}) + '\n')
+        # one request = one forked child of this pristine interpreter (it has imported the
+        # grammar but never applied a rule): whatever state rule application leaks dies with
+        # the child, so a run is a function of its own evaluation list only
         sys.stdout.flush()
+        pid = os.fork()
+        if pid == 0:
+            code = 0
+            try:
+                answers = [evaluate(items[i]) for i in msg['order']]
+                sys.stdout.write(json.dumps({'answers': answers}) + '\n')
+                sys.stdout.flush()
+            except BaseException:
+                code = 1
+            finally:
+                os._exit(code)
+        _, status = os.waitpid(pid, 0)
+        if status != 0:
+            sys.stdout.write(json.dumps({'died': status}) + '\n')
+            sys.stdout.flush()
 
 
 if __name__ == '__main__':
